@@ -148,6 +148,10 @@ FORMS = [
     "error A", "do error B catch A 1 end", "do error A catch all 2 end",
     "do A finally B end", "return A", "(fn() A)()",
     "require A", "s(A)", "eval(A)", "string(A) + B",
+    # every way of reading an input
+    "process_lines(A, fn(l) l)", "process_lines(A, fn(l) B)", "read_all(A)",
+    "readln(A)", "read(A)", "[l for l in A]", "for l in A do B end",
+    "close(A)",
 ]
 
 
@@ -379,7 +383,9 @@ RICH_STRINGS = [
     # text the host cannot encode
     "chr(55296)", "'a' + chr(56320) + 'b'", "chr(0)",
 ]
-RICH_NUMBERS = ["0", "1", "-1", "2", "7", "-7", "31", "32", "33", "63", "64",
+RICH_NUMBERS = ["decimal('1.7e308')", "decimal('-1.7e308')", "-308", "308",
+                "decimal('1e308')", "decimal('4.9e-324')",
+                "0", "1", "-1", "2", "7", "-7", "31", "32", "33", "63", "64",
                 "65", "255", "256", "1000", "65536", "-65536", "0.5", "-0.5", "1e-7 * 1" if False
                 else "0.0000001", "1000000000000000.0", "123456789.125",
                 "2.5", "100", "-100"]
@@ -416,7 +422,9 @@ RICH_OTHER = ["NULL", "TRUE", "FALSE", "//[a-z]+//", "//^a.c$//", "//(a)|b//",
               "date('20200229')", "date('20201231235959')",
               "date('19000101')", "str_input('l1\nl2\n\nl4')",
               "str_input('')", "str_output()", "decimal('inf')",
-              "decimal('nan')"]
+              "decimal('nan')",
+              # inputs that fail on the host side (bound by the sweeper)
+              "badin", "badin", "noin"]
 
 
 def gen_arg(ch):
